@@ -27,9 +27,16 @@ FX_HIDDEN = os.environ.get("C25_FX_HIDDEN", "0") == "1"    # flip to "1" after a
 FORMATS = ["c", "python", "clinic"]
 DEFAULTS = ["1", "-2", "'s'", "None", "(1, 2)", "[3]", "2.5", "b'x'"]
 DOCS = [None, "one line doc", "first line\n\n        indented second\n          deeper third\n    "]
-DEF_HOSTS = ["func", "meth", "cmeth", "smeth", "init", "cdef_meth", "cdef_cmeth", "cdef_smeth", "cdef_init"]
+DEF_HOSTS = ["func", "meth", "cmeth", "smeth", "init", "cdef_meth", "cdef_cmeth", "cdef_smeth", "cdef_init",
+             "typed_func", "gen_func", "coro_func", "typed_cdef_meth"]
+# typed_*: def with C-typed / builtin-typed arguments (_fmt_arg / _fmt_type: 'int a' in format c, 'a: int' in format
+# python, bare name in clinic); gen_func / coro_func: generator and coroutine functions (DefNode subclasses)
+TYPED = ("typed_func", "typed_cdef_meth")
+DTYPES = [None, "int", "double", "str", "list", "long", "object"]
+PYNAME = {"int": "int", "double": "float", "str": "str", "list": "list", "long": "int"}
+TDEFAULT = {"int": "3", "double": "2.5", "str": "None", "list": "None", "long": "-7"}
 FIRST = {"meth": "self", "cmeth": "cls", "init": "self", "cdef_meth": "self", "cdef_cmeth": "cls", "cdef_init": "self",
-         "cpdef_meth": "self"}
+         "cpdef_meth": "self", "typed_cdef_meth": "self"}
 CTYPES = [None, "int", "double", "str", "long"]
 
 
@@ -71,6 +78,13 @@ def mkfunc(idx, host, shape, self_po=False):
     for j, n in enumerate(ko):
         params.append({"name": n, "kind": "ko", "default": DEFAULTS[(idx + j + 3) % len(DEFAULTS)] if (komask >> j) & 1 else None,
                        "ann": "Tag" if (idx + j) % 4 == 1 else None})
+    if host in TYPED:
+        for j, p in enumerate(params):
+            ct = DTYPES[(idx + 2 * j) % len(DTYPES)]
+            if p["ann"] is None and ct:
+                p["ctype"] = ct
+                if p["default"] is not None and ct in TDEFAULT:
+                    p["default"] = TDEFAULT[ct]
     return {"idx": idx, "host": host, "shape": shape, "self_po": self_po, "first": first, "params": params,
             "va": {"name": "va", "ann": "Tag" if idx % 5 == 0 else None} if shape["star"] == "args" else None,
             "kw": {"name": "kws", "ann": "Tag" if idx % 7 == 0 else None} if shape["kw"] else None,
@@ -183,7 +197,7 @@ def split_top(text):
     return out
 
 
-TYPE_WORD = re.compile(r"^(?:int|double|str|long|float|object|unicode) (?=[A-Za-z_])")
+TYPE_WORD = re.compile(r"^(?:int|double|str|long|float|object|unicode|list) (?=[A-Za-z_])")
 
 
 def toks_of_items(items, first=None):
@@ -230,7 +244,7 @@ def model_line(f, hide):
     npo = sum(1 for p in f["params"] if p["kind"] == "po") + (1 if first and f["self_po"] else 0)
     np_ = sum(1 for p in f["params"] if p["kind"] == "pk") + (1 if first and not f["self_po"] else 0)
     nk = sum(1 for p in f["params"] if p["kind"] == "ko")
-    args = (["%d:%s" % (1 if f["host"].startswith(("cdef_", "cpdef_")) and first == "self" else 0, first)] if first else []) \
+    args = (["%d:%s" % (1 if f["host"].startswith(("cdef_", "cpdef_", "typed_cdef_")) and first == "self" else 0, first)] if first else []) \
         + ["0:" + p["name"] for p in f["params"]]
     return "fmt 0 %d %d %d %d %d %s %s %s" % (1 if FX_HIDDEN else 0, 1 if hide else 0, npo, np_, nk,
                                                f["va"]["name"] if f["va"] else "-", f["kw"]["name"] if f["kw"] else "-",
@@ -337,7 +351,7 @@ def plan(tier, fmt_i):
     if tier == "quick":
         # every shape once per format, hosts rotating (a different host per format); the self-positional-only
         # variants on the method hosts; constructor classes are expensive (one class each): a boundary selection
-        rot = [h for h in DEF_HOSTS if h not in ("init", "cdef_init")]
+        rot = [h for h in DEF_HOSTS if h not in ("init", "cdef_init")]      # 13 hosts, coprime with the periods of the shape enumeration
         for i, (s, _) in enumerate(variants):
             idx += 1
             funcs.append(mkfunc(idx, rot[(i + 2 * fmt_i) % len(rot)], s))
@@ -379,8 +393,11 @@ def render(modname, fmt, funcs, binding):
         h = f["host"]
         body = ["pass"] if f["doc"] is None else []
         ret = (" -> " + f["ret"]) if f.get("ret") else ""
-        if h == "func":
-            L += ["def %s(%s)%s:" % (f["name"], pyx_header(f), ret)] + doc_lines(f["doc"], "    ") + ["    " + b for b in body]
+        if h in ("func", "typed_func", "gen_func", "coro_func"):
+            if h == "gen_func":
+                body = ["yield 1"]
+            L += ["%sdef %s(%s)%s:" % ("async " if h == "coro_func" else "", f["name"], pyx_header(f), ret)] \
+                + doc_lines(f["doc"], "    ") + ["    " + b for b in body]
         elif h == "cpdef_func":
             L += ["cpdef %s%s(%s):" % ((f["rtype"] + " ") if f["rtype"] else "", f["name"], pyx_header(f))] \
                 + doc_lines(f["doc"], "    ") + ["    return 0"]
@@ -394,7 +411,7 @@ def render(modname, fmt, funcs, binding):
             L += ["    def __init__(%s)%s:" % (pyx_header(f), ret)] + doc_lines(f["doc"], "        ") \
                 + ["        " + b for b in (["pass"] if f["doc"] is None else [])]
         else:
-            tgt = cdef_cls if h.startswith(("cdef_", "cpdef_")) else py_cls
+            tgt = cdef_cls if h.startswith(("cdef_", "cpdef_", "typed_cdef_")) else py_cls
             f["cls"] = "ZC0x" if tgt is cdef_cls else "ZP0x"
             deco = {"cmeth": "@classmethod", "smeth": "@staticmethod", "cdef_cmeth": "@classmethod",
                     "cdef_smeth": "@staticmethod"}.get(h)
@@ -531,7 +548,7 @@ def build_modules(tier, wd):
             if tier == "quick":
                 full = fmt == "clinic"
             else:
-                full = fmt == "clinic" or g[0]["host"] in ("func", "cdef_meth", "cdef_init", "cpdef_func")
+                full = fmt == "clinic" or g[0]["host"] in ("func", "cdef_meth", "cdef_init", "cpdef_func", "typed_func", "gen_func")
             mods.append({"name": name, "fmt": fmt, "funcs": g, "src": src, "binding": binding, "full": full})
     return mods
 
@@ -619,7 +636,10 @@ def expected_first_line_name(f, fmt):
 
 def expected_sig(f, fmt, hide):
     """the source parameter list through CPython's parser, adjusted to what the format is documented to show"""
-    want, ret = parse_params(header(f, hide_first=hide), f.get("ret"))
+    g = f
+    if fmt == "python" and f["host"] in TYPED:
+        g = dict(f, params=[dict(p, ann=PYNAME[p["ctype"]]) if p.get("ctype") in PYNAME else p for p in f["params"]])
+    want, ret = parse_params(header(g, hide_first=hide), f.get("ret"))
     if fmt == "clinic":
         want, ret = [(n, k, d, None) for n, k, d, a in want], None
     return want, ret
@@ -648,7 +668,7 @@ def check_line(ctx, f, fmt, hide, line, mtoks, stratum):
     otoks = oracle_tokens(f, hide)
     bad = itoks != otoks
     # CPython's parser on the embedded line
-    ptext = ", ".join(TYPE_WORD.sub("", it) for it in items) if f["host"].startswith("cpdef") else params
+    ptext = ", ".join(TYPE_WORD.sub("", it) for it in items) if f["host"].startswith("cpdef") or (f["host"] in TYPED and fmt == "c") else params
     if fmt == "clinic" and f["first"]:
         ptext = re.sub(r"^\$(self|type)\b", f["first"], ptext)
     if fmt == "clinic" and tail:
